@@ -7,6 +7,7 @@ H4 constructors initialise every field of every slot they create
 H5 no two owners of one allocation (= C18.T4 freshness)"""
 import re
 from sa import loops
+from sa import loops as _loops
 from sa.ast import render
 from sa.facts import Inconclusive
 from sa import query
@@ -215,7 +216,21 @@ def h4(prog, ctx):
         succ = [r for r in k.returns() if query.returned_constant(r) in ("ECONF_SUCCESS", 0)]
         bad = [r for r in succ if cfg.block_of(r) in cfg.reachable(rb, avoid_blocks=ib) and rb not in ib]
         idx = render(ini[0].call_args()[1]) if len(ini[0].call_args()) > 1 else ""
-        if not bad and "alloc_length - 1" in idx:
+        looped = None
+        lp9 = next((a for a in ini[0].ancestors() if a.k in ("ForStmt", "WhileStmt")), None)
+        if lp9 is not None:
+            # growth by more than one slot: every new slot [old capacity, new capacity) goes through initialize()
+            sh9 = _loops.index_shape(lp9)
+            caps = [render(r2) for l2, r2, st2, k2 in query.stores(k) if k2 == "=" and r2 is not None and render(l2).endswith("alloc_length")]
+            olds = set([x for x in ("kf->alloc_length",)])
+            for l2, r2, st2 in k.assignments():
+                if r2 is not None and render(r2).endswith("alloc_length") and isinstance(l2, dict):
+                    olds.add(l2["name"])
+            if sh9.ok and sh9.step > 0 and sh9.cmp == "<" and idx == sh9.var and sh9.start in olds and (sh9.bound in caps or sh9.bound.endswith("alloc_length")):
+                looped = "initialize(kf, %s) for %s" % (idx, sh9.describe())
+        if looped:
+            ctx.ok("H4", "key_file_append initialises the slot it adds", ini[0].where, looped + ": every slot from the old to the new capacity")
+        elif not bad and "alloc_length - 1" in idx:
             ctx.ok("H4", "key_file_append initialises the slot it adds", ini[0].where, "initialize(kf, %s) on every path from the realloc to success" % idx)
         else:
             ctx.fail("H4", "key_file_append initialises the slot it adds", re[0].where,
@@ -235,7 +250,7 @@ def h4(prog, ctx):
                     ctx.fail("H4", "%s: econf_file object zero-initialised" % f.name, c.where,
                              "malloc'ed object: fields not assigned afterwards (groups, conf_dirs, root_prefix ...) are garbage for econf_freeFile",
                              key="malloc-object:%s" % f.name)
-    ctx.floor("C20 econf_file allocation sites", n, 2)
+    ctx.floor("C20 econf_file allocation sites", n, 1)
 
 
 def h4_capacity(prog, ctx):
